@@ -420,7 +420,8 @@ def r4(k: Kit) -> None:
     fi = k.func(CONN + '_process_userauth_request')
     space = {'role': ['client', 'server'], 'complete': [False, True],
              'final': [False, True], 'same_user': [False, True],
-             'service_ok': [True, False], 'long': [False, True]}
+             'service_ok': [True, False], 'long': [False, True],
+             'auth': [None, 'AUTH']}
     rows: Dict[str, int] = {}
     bad: Dict[str, str] = {}
     n_states = 0
@@ -448,7 +449,8 @@ def r4(k: Kit) -> None:
             return Obj('ret')
         val = {'self._auth_complete': s['complete'],
                'self._auth_final': s['final'],
-               'self._username': 'alice' if s['same_user'] else 'bob'}
+               'self._username': 'alice' if s['same_user'] else 'bob',
+               'self._auth': Obj('AUTH') if s['auth'] else None}
         try:
             o = evaluate(idx, fi.module, fi.node.body, val,
                          {'packet': Obj('packet')}, on_call)
@@ -484,6 +486,16 @@ def r4(k: Kit) -> None:
             len(tasks) == 1 and len(fin) == 1 and
             fin[0][:1] == ((not s['same_user']),),
             'not exactly one attempt with begin_auth == (user changed)')
+        names = [nm for nm, a in o.calls]
+        row('auth in progress abandoned before the new attempt', pre_ok and
+            s['role'] == 'server' and not s['complete'] and bool(s['auth']),
+            ('self._auth', None) in o.stores and
+            any(nm.endswith('.cancel') for nm in names) and
+            'self.create_task' in names and
+            [i for i, nm in enumerate(names) if nm.endswith('.cancel')][0] <
+            names.index('self.create_task'),
+            'the auth object in progress is neither cancelled nor cleared '
+            'before the task for the new request is created (= C05.R12)')
         row('user switch recorded', pre_ok and s['role'] == 'server' and
             not s['complete'] and not s['same_user'],
             ('self._username', 'alice') in o.stores,
@@ -1127,6 +1139,86 @@ def r11(k: Kit) -> None:
                   g.describe_path(w) if w else None)
 
 
+def r12(k: Kit) -> None:
+    """A new authentication request abandons the one in progress at once."""
+    rep = k.rep
+    rep.rule('C05.R12', 'server _process_userauth_request: the task that '
+             'prepares the new request (reload_config, begin_auth - both '
+             'await) is created only after the auth object in progress was '
+             'cancelled and self._auth cleared, in the same synchronous '
+             'step.  Otherwise method messages (60-79) that arrive meanwhile '
+             'are still handled by the old auth object - created for the old '
+             'user name - and its success is recorded for the connection\'s '
+             'new user name')
+    fi = k.func(CONN + '_process_userauth_request')
+    g = k.cfg(fi)
+    tasks = [n for n, c in k.calls_named(fi, 'create_task', 'self')
+             if '_finish_userauth' in unparse(c)]
+    rep.floor('C05.R12', 'request task creation sites', len(tasks), 1)
+    clears = [n.id for n, v in k.stores_to(fi, 'self._auth')
+              if isinstance(v, ast.Constant) and v.value is None]
+    cancels = [n.id for n, c in k.calls_named(fi, 'cancel', 'self._auth')]
+    for t in tasks:
+        # on every path, either self._auth was falsy or it was cancelled
+        # and cleared
+        w = g.guarded_by(t.id, lambda x: False if x.kind == 'atom' and
+                         dotted(x.ast) == 'self._auth' else None,
+                         extra_blocked=clears)
+        w2 = g.guarded_by(t.id, lambda x: False if x.kind == 'atom' and
+                          dotted(x.ast) == 'self._auth' else None,
+                          extra_blocked=cancels)
+        rep.check(w is None and w2 is None, 'C05.R12',
+                  key(fi, 'method in progress abandoned synchronously'),
+                  'self._auth.cancel() and self._auth = None precede the '
+                  'task on every path where an auth object exists',
+                  'the previous auth object stays installed as the handler '
+                  'of messages 60-79 until the new request\'s task has '
+                  'awaited reload_config() / begin_auth(): a client that '
+                  'sends USERAUTH_REQUEST(bob) followed at once by the '
+                  'answer to alice\'s keyboard-interactive challenge is '
+                  'authenticated as bob on alice\'s credential',
+                  k.loc(fi, t), g.describe_path(w or w2) if (w or w2)
+                  else None)
+
+
+def r13(k: Kit) -> None:
+    """Trust established for one claimed host does not carry over."""
+    rep = k.rep
+    rep.rule('C05.R13', '_match_known_hosts (run for every host-based '
+             'request with the claimed or resolved client host) replaces the '
+             'trusted host key, CA and revoked sets by the result of this '
+             'lookup: none of them is grown in place (add / update / extend '
+             '/ |=), so a key listed only for host X is not trusted for a '
+             'later request that claims host Y')
+    fi = k.func(CONN + '_match_known_hosts')
+    fields = ('self._trusted_host_keys', 'self._trusted_ca_keys',
+              'self._revoked_host_keys', 'self._x509_trusted_certs',
+              'self._x509_revoked_certs')
+    n = 0
+    for f in fields:
+        sts = k.stores_to(fi, f)
+        n += len(sts)
+        grown = [c for c in ast.walk(fi.node) if isinstance(c, ast.Call) and
+                 isinstance(c.func, ast.Attribute) and
+                 dotted(c.func.value) == f and
+                 c.func.attr in ('add', 'update', 'extend', 'append')]
+        grown += [x for x in ast.walk(fi.node)
+                  if isinstance(x, ast.AugAssign) and dotted(x.target) == f]
+        selfdep = [v for nd, v in sts if v is not None and
+                   f in {dotted(x) for x in ast.walk(v)
+                         if isinstance(x, ast.Attribute)}]
+        rep.check(bool(sts) and not grown and not selfdep, 'C05.R13',
+                  key(fi, f'{f[5:]} replaced, not grown'),
+                  'assigned from this lookup\'s result',
+                  f'{f} is grown in place ('
+                  f'{"; ".join(norm(x)[:50] for x in grown + selfdep) or "never assigned"}'
+                  '): with trust_client_host / known_client_hosts a '
+                  'host-based request for host X leaves X\'s keys trusted '
+                  'for a following request that claims host Y on the same '
+                  'connection', fi.loc(fi.node))
+    rep.floor('C05.R13', 'trust set stores', n, 3)
+
+
 def run(idx, rep, tier):
     k = Kit(idx, rep)
     rep.assumptions += NOT_DECIDED
@@ -1141,3 +1233,5 @@ def run(idx, rep, tier):
     r9(k)
     r10(k)
     r11(k)
+    r12(k)
+    r13(k)
